@@ -241,7 +241,7 @@ func oddTV(rt *rapid.T, in *model.Inst, label string) (*gpb.TypedValue, string) 
 	kind := rapid.SampledFrom(tvKinds).Draw(rt, label+".tvkind")
 	// one time in four the value kinds that belong to the leaf's own type (with odd contents): the type-specific
 	// decoding code is only reached by a value of the matching kind
-	if in != nil && in.F != nil && in.F.Type != nil && rapid.IntRange(0, 3).Draw(rt, label+".matchkind") == 0 {
+	if in != nil && in.F != nil && in.F.Type != nil && rapid.IntRange(0, 1).Draw(rt, label+".matchkind") == 0 {
 		switch k := in.F.Type.VKind(); {
 		case k == model.KDec:
 			kind = rapid.SampledFrom([]string{"decimal", "float", "double"}).Draw(rt, label+".deckind")
